@@ -30,6 +30,10 @@ func protocolMore(t *testing.T, bind *Binding, job *Job, p *sdl.Program, acc *st
 		for _, s := range sweepSpecs(p, job, SpecData{}) {
 			do(s)
 		}
+	case "C15", "C18":
+		for _, s := range sweepSpecs(p, job, SpecData{GetPaths: model.AllLeafPaths(p)}) {
+			do(s)
+		}
 	case "C14":
 		var closers []string
 		for _, i := range p.Instances {
@@ -144,6 +148,17 @@ func nonTrivialMore(prop string, w *model.World, out *model.Outcome, o *model.Ob
 		return countKind(o, "run") >= 1
 	case "C14":
 		return len(o.CloseSnaps) >= 2
+	case "C15":
+		return len(model.ActiveSources(w.P)) >= 2 && model.ActiveFault(w.P) == ""
+	case "C18":
+		for _, t := range w.P.Types {
+			for _, cf := range t.Config {
+				if cf.Validate != "" || cf.Menu == "sum" || cf.Menu == "mul" {
+					return true
+				}
+			}
+		}
+		return false
 	case "C09":
 		return len(o.Fired) != 0 || out.Verdict == model.MustFail
 	case "C04":
